@@ -257,6 +257,11 @@ func (s *Session) Reset() error {
 	// Generate a new session, and set session.fresh to true
 	s.refresh()
 
+	// The deadline of the old session went with its data: the new session gets an absolute deadline of its own
+	if s.config.AbsoluteTimeout > 0 {
+		s.setAbsExpiration(time.Now().Add(s.config.AbsoluteTimeout))
+	}
+
 	return nil
 }
 
